@@ -99,6 +99,9 @@ TASKS = [
      'input: n. input: q/1. output: p/1.'),
     ('placeholder-name-at-two-sorts-symbol', 'spec', 'assumption: c$i > 0. spec: forall X (p(X) <-> q(X) and X != c$s and X != c$i).', 'p(X) :- q(X), X != c.',
      'input: c -> symbol. input: q/1. output: p/1.'),
+    # program variables V<n> with different digit counts (fresh head variables are chosen numerically)
+    ('v-names-diagonal-false', 'program', 'p(V9) :- q(V9, V10).', 'p(X) :- q(X, X).', 'input: q/2. output: p/1.'),
+    ('v-names-projection-true', 'program', 'p(V9) :- q(V9, V10).', 'p(X) :- q(X, Y).', 'input: q/2. output: p/1.'),
     # false claims (refutable obligations): weakened or vacuous premises cannot hide behind a true claim
     ('false-placeholder-integer', 'program', 'p(1..n).', 'p(X) :- X = 0..n.', 'input: n -> integer. output: p/1. assumption: n >= 0.'),
     ('false-placeholder-general', 'program', 'p(X) :- q(X), X != c.', 'p(X) :- q(X), not r(X). r(c). r(0).', 'input: c. input: q/1. output: p/1.'),
